@@ -1,7 +1,7 @@
 """C02: pieces of the rule parser that are straight set/list code (hmm_rule_parser/rule_parser.py)."""
 # pylint: disable=no-self-argument,no-method-argument,missing-function-docstring
 from pyvc.dsl import (contract, spec, Int, Bool, Real, Str, Opt, OneOf, Rec, Ref, External, ListOf, SeqOf, SetOf,
-                      DictOf, DictEntries, Const, Loop, implies, iff, forall, exists, forall_str)
+                      DictOf, DictEntries, Const, Loop, Recurrence, implies, iff, forall, exists, forall_str)
 
 FILE = "antismash/common/hmm_rule_parser/rule_parser.py"
 
@@ -47,4 +47,67 @@ class ParseSuperiors:
             forall_str(lambda x: (x in result) == (x in self._verif_listed or inherited(self, x))),
         "no-duplicates": lambda self, result:
             all(result[i] != result[j] for i in range(len(result)) for j in range(len(result)) if i < j),
+    }
+
+
+# ---- which identifiers of a rule text must be known profiles ---------------------------------------------
+KIND = Rec("TokenTypes", label="TokenKind", value=Int)
+TOKEN = Rec("Token", label="TokenOfKind", token_text=Str, type=KIND, aliased=Bool)
+
+
+@spec
+def is_keyword(token):
+    """RULE, DESCRIPTION, CUTOFF, ... EXTENDERS: the structure keywords of a rule (free text excepted)"""
+    return token.type.value >= 100 and token.type.value != 107
+
+
+@spec
+def in_conditions_init(tokens):
+    return False
+
+
+@spec
+def in_conditions_step(prev, k, tokens):
+    """inside a CONDITIONS section after token k: from the keyword CONDITIONS up to the next structure keyword"""
+    if tokens[k].type.value == 104:
+        return True
+    if is_keyword(tokens[k]):
+        return False
+    return prev
+
+
+in_conditions_after = Recurrence("in_conditions_after", in_conditions_init, in_conditions_step, Bool)
+
+
+@spec
+def condition_identifier(tokens, k):
+    """token k is an identifier inside a CONDITIONS section"""
+    return (tokens[k].type.value == 6 and not is_keyword(tokens[k]) and tokens[k].type.value != 104
+            and in_conditions_after(k, tokens))
+
+
+@contract(f"{FILE}::find_condition_identifiers", props=["C02"])
+class FindConditionIdentifiers:
+    """The identifiers checked against the known profiles are exactly the identifier tokens inside CONDITIONS
+    sections, whether written directly or substituted from an alias (any number of tokens)."""
+    params = {"tokens": SeqOf(TOKEN)}
+
+    def requires(tokens):
+        # the kinds of the real enumeration
+        return forall(range(0, len(tokens)), lambda k: (1 <= tokens[k].type.value and tokens[k].type.value <= 15
+                                                        and tokens[k].type.value != 5)
+                      or (100 <= tokens[k].type.value and tokens[k].type.value <= 112))
+
+    loops = {0: Loop(
+        types={"identifiers": SetOf(Str), "in_conditions": Bool, "token": TOKEN},
+        invariant={
+            "flag-follows-the-sections": lambda in_conditions, tokens, _i: in_conditions == in_conditions_after(_i, tokens),
+            "collected-so-far": lambda identifiers, tokens, _i:
+                forall_str(lambda x: (x in identifiers) == exists(range(0, _i), lambda k:
+                           condition_identifier(tokens, k) and tokens[k].token_text == x)),
+        })}
+    ensures = {
+        "exactly-the-identifiers-inside-conditions-sections": lambda tokens, result:
+            forall_str(lambda x: (x in result) == exists(range(0, len(tokens)), lambda k:
+                       condition_identifier(tokens, k) and tokens[k].token_text == x)),
     }
